@@ -242,6 +242,20 @@ def run(db: ProgramDB, chk) -> None:
         chk.ob("C19.R2-artefacts", f"file name of {role}: written = read", a is not None and a == b2, m.loc(save), found={"save": a, "restore": b2},
                accepted="same literal file name in save and restore",
                why="a renamed or swapped artefact restores the wrong object or fails")
+    # the artefacts read are those of THIS archive: extraction is unconditional
+    ex = [c for c in H.calls(restore) if isinstance(c.func, ast.Attribute) and c.func.attr in ("extractall", "extract")]
+    guards = []
+    for c in ex:
+        cur = m.parent.get(id(c))
+        while cur is not None and cur is not restore:
+            if isinstance(cur, (ast.If, ast.IfExp, ast.Try)):
+                guards.append(ast.unparse(cur.test)[:80] if hasattr(cur, "test") else "try")
+            cur = m.parent.get(id(cur))
+    zf = [c for c in H.calls(restore) if call_name(c).endswith("ZipFile")]
+    chk.ob("C19.R2-artefacts", "restore extracts the given archive unconditionally before reading the artefacts", len(ex) == 1 and not guards and len(zf) == 1 and
+           H.name_id(zf[0].args[0]) == H.param_names(restore)[0] and ex[0].lineno < min(c.lineno for c in H.calls(restore) if call_name(c) in ("open", "pd.read_csv")), m.loc(restore),
+           found={"extract": [ast.unparse(c) for c in ex], "guards": guards}, accepted="zipf.extractall(...) not under any condition",
+           why="skipping extraction when the directory already exists restores the files of an earlier archive saved under the same name")
     # node-link convention
     nld = H.calls_named(save, "node_link_data")
     nlg = H.calls_named(restore, "node_link_graph")
